@@ -125,7 +125,11 @@ class MissingDriver:
             for f in (lambda: MISSING.anything, lambda: setattr(MISSING, "a", 1), lambda: delattr(MISSING, "a"),
                       # the special names through which the one object could be turned into something else
                       lambda: setattr(MISSING, "__class__", _Slotted), lambda: setattr(MISSING, "__dict__", {}),
-                      lambda: delattr(MISSING, "__class__"), lambda: setattr(MISSING, "__slots__", ("a",))):
+                      lambda: delattr(MISSING, "__class__"), lambda: setattr(MISSING, "__slots__", ("a",)),
+                      # ... and the back doors past the object's own __getattr__ / __setattr__: its namespace, the
+                      # object-level setter (the singleton has no instance dictionary and no slots to write to)
+                      lambda: MISSING.__dict__, lambda: vars(MISSING), lambda: object.__setattr__(MISSING, "back_door", 1),
+                      lambda: object.__getattribute__(MISSING, "__dict__")):
                 try:
                     f()
                     rejected = False
@@ -150,7 +154,7 @@ def run(rep, work, tier, seed):
     if tier == "thorough":
         leg_mutant(rep, work, SPEC, "mutant_copy_makes_new", cfg_text(dict(c, Bug="copy_makes_new"), invariants=INVS), ["Singleton"])
         leg_mutant(rep, work, SPEC, "mutant_eq_any_falsy", cfg_text(dict(c, Bug="eq_any_falsy"), invariants=INVS), ["EqOnlySelf"])
-    leg_r(rep, work, SPEC, f"conf_{tier}", cfg_text(c, invariants=INVS), MissingDriver, nproc=1)
+    leg_r(rep, work, SPEC, f"conf_{tier}", cfg_text(c, invariants=INVS), MissingDriver, nproc=1, opt=True)
     rep.assumptions += ["object identity within one interpreter process; sub-interpreters / multiprocessing are out of scope"]
     return rep.finish(exhaustive=True,
                       rule="every (shape x {call, copy, deepcopy, pickle protocol 0..5}) and every look-alike probe in both "
